@@ -14,7 +14,7 @@ def poly_programs(rng, n, N):
     """integer-coefficient polynomial programs R^N -> R / R^M"""
     out = []
     ints = [2, 3, -1, numpy.arange(1, N + 1)]
-    base = [k for k, o in progs.OPS.items() if o['poly'] and k not in ('div_c', 'negative', 'buffer')]
+    base = [k for k, o in progs.OPS.items() if o['poly'] and k not in ('div_c', 'negative', 'buffer', 'buffer_views')]
     tries = 0
     while len(out) < n and tries < 400 * n:
         tries += 1
@@ -74,7 +74,7 @@ def c09(rng, tier):
                     yield ({'driver': 'raises', 'program': p.describe(), 'x': x.tolist(), 'N': p.N}, '%s: %s' % (type(e).__name__, str(e)[:150]))
                 # higher order tensors: all distinct d-th order partials divided by the multi-index factorial
                 if poly and p.N <= 3:
-                    for d in ((2, 3) if tier == 'quick' else (2, 3, 4)):
+                    for d in (((2, 3, 4) if p.N <= 2 else (2, 3)) if tier == 'quick' else (2, 3, 4, 5)):
                         try:
                             import algopy.exact_interpolation as ex
                             y = sc.run(ns, U.init_tensor(d, x)); got = U.extract_tensor(p.N, y, as_full_matrix=False)
@@ -89,6 +89,41 @@ def c09(rng, tier):
                             yield cmp('init_tensor(%d)/extract_tensor' % d, got, want)
                         except Exception as e:
                             yield ({'driver': 'tensor raises', 'program': p.describe(), 'd': d, 'N': p.N}, '%s: %s' % (type(e).__name__, str(e)[:150]))
+
+
+def dense_polys(N):
+    """fixed integer polynomials with non-vanishing mixed partial derivatives of every order <= 5 (python callables on UTPM / sympy objects)"""
+    ws = [1, 2, -1, 3, 2][:N]
+    def lin(x): 
+        s_ = ws[0] * x[0]
+        for i in range(1, N): s_ = s_ + ws[i] * x[i]
+        return s_
+    fs = [lambda x: lin(x) ** 5 + lin(x) ** 2, lambda x: (lin(x) * lin(x) + 1) * lin(x) * x[0] * x[N - 1] + x[0] ** 4 * x[N - 1]]
+    return fs
+
+
+def c09_tensors(rng, tier):
+    a = A(); U = a.UTPM; import sympy as sp, algopy.exact_interpolation as ex
+    for N in ((1, 2, 3) if tier == 'quick' else (1, 2, 3, 4)):
+        xs = sp.symbols('x0:%d' % N, real=True)
+        for fi, f in enumerate(dense_polys(N)):
+            fsym = sp.expand(f(list(xs)))
+            x = numpy.array([float(rng.randint(1, 3)) for _ in range(N)])
+            for d in ((1, 2, 3, 4) if tier == 'quick' or N > 3 else (1, 2, 3, 4, 5)):
+                if N >= 3 and d >= 5: continue
+                case = {'driver': 'init_tensor(%d)/extract_tensor[dense polynomial %d]' % (d, fi), 'N': N, 'x': x.tolist()}
+                try:
+                    y = f(U.init_tensor(d, x)); got = U.extract_tensor(N, y, as_full_matrix=False)
+                    want = []
+                    for mi in ex.generate_multi_indices(N, d):
+                        e = fsym
+                        for n_, k in enumerate(mi):
+                            if k: e = sp.diff(e, xs[n_], int(k))
+                        want.append(float(e.subs(dict(zip(xs, x)))) / float(numpy.prod([math.factorial(int(k)) for k in mi])))
+                    got = numpy.asarray(got, dtype=float); want = numpy.asarray(want)
+                    ok = got.shape == want.shape and numpy.allclose(got, want, rtol=1e-9, atol=1e-9 * max(1.0, numpy.abs(want).max()))
+                    yield case, (None if ok else 'got %s, exact %s' % (got.tolist(), want.tolist()))
+                except Exception as e: yield case, 'raises %s: %s' % (type(e).__name__, str(e)[:120])
 
 
 # =============================================================================================== C15
@@ -187,7 +222,7 @@ def c16(rng, tier):
     for name, (f, dom) in S.items():
         if not hasattr(nd, name): continue
         g = getattr(nd, name)
-        pts = [native.rnd(rng, dom[0], dom[1], 16) for _ in range(3 if tier == 'quick' else 8)]
+        pts = [native.rnd(rng, dom[0], dom[1], 16) for _ in range(3 if tier == 'quick' else 8)] + [v for v in (0.0, 1.0, -1.0, 2.0, 0.5) if dom[0] <= v <= dom[1] or (name in ('square', 'negative', 'exp', 'exp2', 'expm1', 'sin', 'cos', 'sinh', 'cosh', 'arctan', 'arcsinh', 'erf', 'erfi', 'tanh') and abs(v) <= 2)]
         for x in pts:
             for n in range(0, nmax + 1):
                 case = {'function': name, 'n': n, 'x': x}
